@@ -69,7 +69,7 @@ package shared
 //@   property C05 C11
 //@   requires generator != nil
 //@   modifies generator.epochNano, generator.sequence
-//@   ensures[!id-is-the-generator-state] cur(nextTimestamp) == generator.epochNano && cur(nextSequence) == generator.sequence
+//@   ensures[!id-is-the-generator-state] fmtint0 == generator.epochNano && fmtint1 == generator.sequence
 //@   ensures[ids-grow-in-creation-order] old(generator.sequence) < 2147483647 ==> generator.epochNano > old(generator.epochNano) || (generator.epochNano == old(generator.epochNano) && generator.sequence > old(generator.sequence))
 //@   ensures[sequence-fits-its-eight-digits] 0 <= old(generator.sequence) && old(generator.sequence) < 99999999 ==> 0 <= generator.sequence && generator.sequence <= 99999999
 //@   canary ensures generator.epochNano > old(generator.epochNano)
